@@ -60,6 +60,11 @@ def case_tags(case):
     owners = [r['owner'] for r in m['rels']]
     if len(owners) != len(set(owners)):
         tags.add('multi-rel-parent')
+    for r in m['rels']:       # a group whose owner also has a mandatory child: mandsib-<kind of the group>
+        n = len(r['kids'])
+        if n > 1 and any(q['owner'] == r['owner'] and len(q['kids']) == 1 and (q['lo'], q['hi']) == (1, 1) for q in m['rels']):
+            tags.add('mandsib-' + ('alternative' if (r['lo'], r['hi']) == (1, 1) else 'or' if (r['lo'], r['hi']) == (1, n)
+                                   else 'mutex' if (r['lo'], r['hi']) == (0, 1) else 'cardinality'))
     if not m['rels']:
         tags.add('root-only')
     if m['ctcs']:
@@ -392,7 +397,13 @@ def script_c17(case, naming, tier, seed):
         flt = list(METRIC_METHODS)
     else:
         flt = rnd.sample(METRIC_METHODS, rnd.randrange(2, 12))
-    events.append(observe.exec_metrics(observe.new_op('metrics'), 2, b.model, naming, flt=flt))
+    fobj = observe.new_op('metrics')
+    mine = list(flt)                      # the caller's own filter list: handed in once, the object executed twice
+    events.append(observe.exec_metrics(fobj, 2, b.model, naming, flt=flt, caller_list=mine))
+    if len(case['hist']) % 2 == 0:
+        events.append(observe.exec_metrics(fobj, 2, b.model, naming, flt=flt, seqno=2, apply_filter=False))
+        # ... and another object given the caller's list afterwards
+        events.append(observe.exec_metrics(observe.new_op('metrics'), 5, b.model, naming, flt=flt, caller_list=mine))
     for k, h in enumerate(edits_of(case)):      # in-place edits: the same FMMetrics object again, and a fresh one
         events.append(b.event_for(h))
         events.append(observe.exec_metrics(obj, 1, b.model, naming, seqno=k + 3))
@@ -966,7 +977,7 @@ REF_FORMATS = {
                         'op:NOT', 'op:AND', 'op:OR', 'op:IMPLIES', 'op:EQUIVALENCE', 'op:REQUIRES', 'op:EXCLUDES'],
                 ok=lambda m: True),
     'glencoe': dict(surface='Surface-glencoe', sources=['Ref-glencoe-Ctc', 'glencoe-Tree', 'Ref-glencoe-Chain', 'glencoe-Dup', 'glencoe-Ctc2'], size=18,
-                    wanted=['and-in-or', 'or-in-and', 'xor-in-and', 'and-in-xor', 'chain6', 'chain7', 'chain10', 'chain12', 'dupctc', 'sameshapectc', 'mandatory', 'optional', 'or', 'alternative', 'mutex', 'cardinality', 'op:NOT', 'op:AND', 'op:OR',
+                    wanted=['mandsib-cardinality', 'mandsib-mutex', 'mandsib-or', 'mandsib-alternative', 'and-in-or', 'or-in-and', 'xor-in-and', 'and-in-xor', 'chain6', 'chain7', 'chain10', 'chain12', 'dupctc', 'sameshapectc', 'mandatory', 'optional', 'or', 'alternative', 'mutex', 'cardinality', 'op:NOT', 'op:AND', 'op:OR',
                             'op:XOR', 'op:IMPLIES', 'op:EQUIVALENCE', 'op:REQUIRES', 'op:EXCLUDES'],
                     ok=lambda m: len({c['name'] for c in m['ctcs']}) == len(m['ctcs'])),
 }
